@@ -322,13 +322,33 @@ def gen_c12(ctx, n):
                     # that its instances are complete, a NEW instance afterwards breaks that declaration, not the library
                     g = rng.choice(known)
                     x = hidden[(i, g)]
-                    ops2.append([8, i, [[list(g), [rng.choice([v for v in gen_fol.G8 if v <= x]), rng.choice([v for v in gen_fol.G8 if v >= x])]]]])
+                    b = [F(0), F(1)] if rng.random() < 0.5 else [rng.choice([v for v in gen_fol.G8 if v <= x]), rng.choice([v for v in gen_fol.G8 if v >= x])]
+                    ops2.append([8, i, [[list(g), b]]])      # often a retraction to UNKNOWN
             ops2 += [[21, qi] for qi in range(len(qobjs)) if qobjs[qi][1] < nb]
             if rng.random() < 0.5:
                 ops2 += [[20, qi] for qi in range(len(qobjs))] + [[21, qi] for qi in range(len(qobjs)) if qobjs[qi][1] < nb]
         hid = [[i, list(g), x] for (i, g), x in hidden.items()]
         scs.append([50, kb, roots, worlds, data, qobjs, ops2, hid])
         meta.append(me)
+    # the textbook case, with random variations: all instances but one decided, the quantifier refuted (Forall) / proved
+    # (Exists) by its world, so the open instance IS forced; then a deciding fact is retracted and only a downward step runs:
+    # nothing may be forced any more
+    for _ in range(max(1, n // 8)):
+        kd = rng.choice([0, 1])
+        ncs = rng.choice([3, 3, 4])
+        decided = [F(1), F(1)] if kd == 0 else [F(0), F(0)]
+        open_i = rng.randrange(ncs)
+        kb = [[0, [], [], 1, list(gen_fol.DEFP), []]]
+        hidden = {(0, (c,)): (decided[0] if c != open_i else 1 - decided[0]) for c in range(ncs)}
+        data = [[0, [[[c], (list(decided) if c != open_i else rng.choice([[F(0), F(1)], ([F(0), F(7, 8)] if kd == 0 else [F(1, 8), F(1)])]))] for c in range(ncs)]]]
+        qobjs = [[kd, 0, [], rng.choice([0, 2]), (gen_fol.CLOSED if kd == 0 else gen_fol.AXIOM), [0]]]
+        victim = rng.choice([c for c in range(ncs) if c != open_i])
+        ops2 = [[20, 0], [21, 0], [15, 0], [8, 0, [[[victim], [F(0), F(1)]]]], [21, 0]]
+        if rng.random() < 0.5:
+            ops2 += [[20, 0], [21, 0]]
+        hid = [[i, list(g), x] for (i, g), x in hidden.items()]
+        scs.append([50, kb, [], [gen_fol.OPEN], data, qobjs, ops2, hid])
+        meta.append({"nq": 1, "partial": False, "nested": False, "full": False})
     return scs, meta
 
 
